@@ -71,10 +71,16 @@ func (p PatternSchema) Validate(d any) error {
 		}
 	}
 
-	_, ok := d.(*regexp.Regexp)
+	pattern, ok := d.(*regexp.Regexp)
 	if !ok {
 		return &ConstraintError{
-			Message: fmt.Sprintf("%T is not a valid data type for a float schema.", d),
+			Message: fmt.Sprintf("%T is not a valid data type for a pattern schema.", d),
+		}
+	}
+	if pattern == nil {
+		// A typed nil pointer inside a non-nil interface.
+		return &ConstraintError{
+			Message: "Pattern value should not be nil.",
 		}
 	}
 	return nil
@@ -84,7 +90,13 @@ func (p PatternSchema) Serialize(data any) (any, error) {
 	if err := p.Validate(data); err != nil {
 		return nil, err
 	}
-	return data.(*regexp.Regexp).String(), nil
+	pattern, ok := data.(*regexp.Regexp)
+	if !ok || pattern == nil {
+		return nil, &ConstraintError{
+			Message: fmt.Sprintf("%T is not a valid data type for a pattern schema.", data),
+		}
+	}
+	return pattern.String(), nil
 }
 
 func (p PatternSchema) UnserializeType(data any) (*regexp.Regexp, error) {
